@@ -609,7 +609,35 @@ pub fn gen_defscan(rng: &mut Rng) -> String {
             _ => cond.extend(["(".to_string(), "defined".to_string(), p, ")".to_string()]),
         }
     }
-    parts.push(join(rng, &cond));
+    let mut cond_text = join(rng, &cond);
+    // one scenario in five is *text*: the same definitions, the "condition" as ordinary source lines, broken at random
+    // places — before and after the `(` of an invocation, after commas, between operands (fix f08088c: the invocation
+    // of a function-like macro may continue on the next line; `Z(<line end>)` is an empty argument list)
+    if placement != "a" && rng.chance(1, 4) {
+        parts[0] = "t".to_string();
+        let mut s = String::new();
+        for c in cond_text.chars() {
+            match c {
+                ' ' if rng.chance(1, 3) => s.push('\n'),
+                '(' => {
+                    if rng.chance(1, 3) {
+                        s.push_str(*rng.pick(&["\n", " \n", "\n\n", "\n  "]));
+                    }
+                    s.push('(');
+                    if rng.chance(1, 4) {
+                        s.push('\n');
+                    }
+                }
+                ',' | ')' if rng.chance(1, 5) => {
+                    s.push('\n');
+                    s.push(c);
+                }
+                _ => s.push(c),
+            }
+        }
+        cond_text = s;
+    }
+    parts.push(cond_text);
     parts.join(";")
 }
 
